@@ -49,6 +49,9 @@ func (r *Report) Sample(s string) {
 	}
 }
 
+// Saturated reports that enough failing cases were collected (each stuck case costs a timeout).
+func (r *Report) Saturated() bool { return len(r.Violations) >= 6 }
+
 func (r *Report) Violate(key, c, detail string) {
 	if len(r.Violations) < 50 {
 		r.Violations = append(r.Violations, Violation{key, c, detail})
